@@ -423,6 +423,17 @@ def run(ctx):
                     check_decoded(ctx, entry, t, (entry, kind, b >> 3, nb))
                 check_join(ctx, f"http://h/d{t}/e{t}/f?bq#bf", f"g{t}/../h?{t}#{t}", ("join", kind, b >> 3, nb))
                 check_join(ctx, f"http://h/a%20b/c%2Fd%3F%23%25/{t}/f", "x", ("join-esc", kind, b >> 3, nb))
+        # kept escapes (encoded delimiters, bytes >= 0x80, lower-case hex) placed around the compiled writer's buffer sizes: the
+        # canonical text of one component reaches 8192 / 16384 characters with the escape's '%' at offsets -4 .. +2 of the mark
+        if ctx.shard == 0:
+            for mark in (8192, 16384):
+                for off in range(-5, 3):
+                    for esc_ in ("%2F", "%2f", "%FF", "%c3%a9", "%26", "%3d", "%2B", "%25", "%E2%82%AC", "%80"):
+                        fill = "v" * (mark + off)
+                        for pos, tmpl in (("path", "http://h/{}"), ("query", "http://h/p?k={}"), ("fragment", "http://h/p#{}"), ("user", "http://{}@h/p"), ("password", "http://u:{}@h/")):
+                            body = fill[: len(fill) - (3 if pos == "query" else 1 if pos == "path" else 0)] + esc_ + "x y=é" + esc_
+                            check_ctor(ctx, tmpl.format(body), ("ctor-boundary", pos, esc_, mark, off))
+                            ctx.count("boundary_escape_cases")
         ctx.sample({"regime": "requote", "s": "http://h/p?k=%2b&%2b=v"})
         ctx.sample({"regime": "decoded", "entry": "with_query_dict", "text": "a&b=c+d;e %"})
         return
